@@ -354,6 +354,41 @@ def cbmc_scalars(rep, prop, thorough):
                                   "statement": "for all values, path contents / ids and prior buffer contents: C07 bytes written, C08 decoding (harness/cbmc/vss_scalar_all_inputs.c)"}
 
 
+def cbmc_strarr(rep, thorough):
+    """CBMC on the REAL string-array helpers: N strings of all lengths 0..MAXL and all contents,
+    every requested count around N: C10 as stated in harness/cbmc/vss_strarr_all_inputs.c, with
+    CBMC's own bounds and pointer checks on (reads behind the exact-extent block are violations)."""
+    import os
+    R = common.REPO
+    harness = os.path.join(common.VERIF, "harness", "cbmc", "vss_strarr_all_inputs.c")
+    lib = [os.path.join(R, "src", "avtp", "acf", "custom", "Vss.c"), os.path.join(R, "src", "avtp", "Utils.c")]
+    hs = lib + [harness, os.path.join(R, "include", "avtp", "acf", "custom", "Vss.h"), os.path.join(R, "include", "avtp", "Byteorder.h")]
+    maxl = 4 if thorough else 3
+    jobs = sorted({(n, req, maxl, e) for n in range(0, (5 if thorough else 4)) for req in (0, max(0, n - 1), n, n + 1, n + 4)
+                   for e in (("little", "big") if thorough else ("little",))})
+    jobs = [list(j) for j in jobs]
+
+    def cmd(job):
+        n, req, ml, e = job
+        c = ["cbmc", "-DN=%d" % n, "-DREQ=%d" % req, "-DMAXL=%d" % ml, "-I", os.path.join(R, "include"), harness] + lib + \
+            ["--unwind", "64", "--unwinding-assertions", "--bounds-check", "--pointer-check", "--object-bits", "12"]
+        return c + (["--big-endian", "-D__BYTE_ORDER__=__ORDER_BIG_ENDIAN__"] if e == "big" else [])
+    results = common.cbmc_sweep("vssstrarr", hs, jobs, cmd, "C10", "t" if thorough else "q")
+    n_ok = 0
+    for job, verdict, failed, trace in results:
+        if verdict == "ok":
+            n_ok += 1
+            continue
+        n, req, ml, e = job
+        rep.violation("Vss:string-array:all-inputs:%s:n=%d:req%s" % (e, n, "<=n" if req <= n else ">n"),
+                      {"kind": "real-code-violates-the-statement", "strings": n, "requested": req, "max_string_length": ml,
+                       "host_byte_order": e, "failed_assertions": failed, "cbmc_trace_tail": trace[-2500:],
+                       "replay_cmd": " ".join(cmd(job)) + " --trace"})
+    rep.cov["cbmc_all_inputs"] = {"jobs": len(results), "verified": n_ok,
+                                  "statement": "for all string lengths 0..%d and contents, N = 0..%d strings, requested counts {0, N-1, N, N+1, N+4}: "
+                                               "C10 (harness/cbmc/vss_strarr_all_inputs.c) with CBMC bounds/pointer checks" % (maxl, 4 if thorough else 3)}
+
+
 def cbmc_pad(rep, thorough):
     """CBMC on the REAL Avtp_Vss_Pad: per message length, for ALL prior buffer contents, C09 as
     stated (harness/cbmc/vsspad_all_inputs.c), both host byte orders."""
@@ -468,6 +503,8 @@ def check(rep, prop, tier, seed):
         cbmc_pad(rep, thorough)
     if prop in ("C07", "C08"):
         cbmc_scalars(rep, prop, thorough)
+    if prop == "C10":
+        cbmc_strarr(rep, thorough)
     pipeline.report_proof_failures(rep, prop, res, diff_groups)
     cells = {(t["what"], t.get("mode"), t.get("code"), t["class"], t["len"] if prop in ("C09",) else None) for t in cs.tags}
     rep.cov.update(evaluations=len(cs.cases), distinct_nontrivial=len(cells), reference_checked=nref,
